@@ -60,7 +60,7 @@ Qed.
 Lemma wf_alloc c ch s l req : wf s -> wf (snd (allocIPOffer c ch s l req)).
 Proof.
   intros H. unfold allocIPOffer.
-  destruct (phase1 ch s l req); simpl; auto.
+  destruct (phase1 c ch s l req); simpl; auto.
   destruct (scan _ _ _ _); simpl; auto using wf_set_next.
   destruct (scan _ _ _ _); simpl; auto using wf_set_next.
 Qed.
@@ -73,7 +73,7 @@ Proof.
   intros H. unfold handleDiscover.
   pose proof (wf_findOrCreate c s (getcid m) (m_chaddr m) H) as H1.
   destruct (findOrCreate c s (getcid m) (m_chaddr m)) as [s1 l]. simpl in H1.
-  set (l1 := discover_reset now l m).
+  set (l1 := match l_offer (discover_reset now l m) with Some x => _ | None => _ end).
   assert (Hp : wf (put s1 l1)) by auto using wf_put.
   destruct (l_offer l1) as [x|].
   - simpl. auto using wf_put.
